@@ -20,7 +20,8 @@ vars == <<st, comp, know, part, ops, last, M, passive>>
 \* passive: nodes started again after a graceful leave that have not issued a join of their own since (they were only
 \* joined BY others, so they never broadcast a join intent newer than their old leave)
 \* know[n][x]: what running node n should know about x: 0 nothing, 1 x is a live member of n's cluster,
-\* 2 the incarnation of x that n knew left gracefully, 3 the incarnation of x that n knew died
+\* 2 the incarnation of x that n knew left gracefully, 3 the incarnation of x that n knew died,
+\* 5 the incarnation of x that left gracefully while n was cut off from it
 
 Running == { x \in Nodes : st[x] = 1 }
 SameSide(x, y) == part = {} \/ ((x \in part) <=> (y \in part))
@@ -34,6 +35,10 @@ Blank == [x \in Nodes |-> 0]
 Finders(x) == { m \in Nodes \ {x} : st[m] = 1 /\ know[m][x] = 3 }
 Start(x) ==
   /\ st[x] # 1
+  \* not generated: a restart after a graceful leave that some running member has not learned of yet (5).  That member
+  \* holds the old incarnation as failed and dials it; whether it finds the new node before state sync tells it of the
+  \* leave is a race with two legitimate outcomes (joined again / stays apart), which this deterministic model does not carry.
+  /\ ~(st[x] = 2 /\ \E n \in Nodes \ {x} : st[n] = 1 /\ know[n][x] = 5)
   /\ st' = [st EXCEPT ![x] = 1]
   /\ IF st[x] = 3 /\ (Finders(x) # {} \/ (Snap /\ \E m \in Nodes \ {x} : st[m] = 1 /\ know[x][m] = 1))
        THEN LET grp == { m \in comp[x] : st[m] = 1 } \cup {x} IN
@@ -54,10 +59,11 @@ Join(x, y) ==
   /\ last' = [a |-> "join", x |-> x, y |-> y]
   /\ passive' = passive \ {x}
   /\ UNCHANGED <<st, part>>
-Leave(x) ==         \* graceful leave followed by shutdown, issued while the network is whole
-  /\ st[x] = 1 /\ part = {} /\ Cardinality(comp[x] \cap Running) >= 2
+Leave(x) ==         \* graceful leave followed by shutdown, issued while connected to a running member of its cluster
+  /\ st[x] = 1 /\ \E y \in (comp[x] \cap Running) \ {x} : SameSide(x, y)
   /\ st' = [st EXCEPT ![x] = 2]
-  /\ know' = [n \in Nodes |-> IF n # x /\ know[n][x] = 1 THEN [know[n] EXCEPT ![x] = 2] ELSE know[n]]
+  \* members cut off from x at that moment (5) learn of the leave only by state sync after the heal
+  /\ know' = [n \in Nodes |-> IF n # x /\ know[n][x] = 1 THEN [know[n] EXCEPT ![x] = IF SameSide(n, x) THEN 2 ELSE 5] ELSE know[n]]
   /\ last' = [a |-> "leave", x |-> x]
   /\ UNCHANGED <<comp, part, passive>>
 Crash(x) ==
@@ -81,10 +87,15 @@ Wait ==
 
 ------------------------------------------------------------------------------
 (* C01 on the observed final views.  v[n+1][x+1] = status node n reports for x.  *)
+\* 5: x left gracefully while n was cut off from it.  n must end up reporting it left if a witness of the leave
+\* (a member that recorded it as left) is still running in n's cluster when the healed network is quiet -- state
+\* sync carries it --, otherwise failed is all n can know.
+Witnessed(n, x) == \E m \in Nodes \ {n, x} : st[m] = 1 /\ m \in comp[n] /\ know[m][x] = 2
 Allowed(n, x) ==
   CASE know[n][x] = 1 -> {1}
     [] know[n][x] = 2 -> {3}
     [] know[n][x] = 3 -> {4}
+    [] know[n][x] = 5 -> IF Witnessed(n, x) THEN {3} ELSE {3, 4}
     [] OTHER          -> {0}
 Wrong(v) == { <<n, x>> \in Nodes \X Nodes : st[n] = 1 /\ n # x /\ v[n + 1][x + 1] \notin Allowed(n, x) }
 SelfWrong(v) == { n \in Nodes : st[n] = 1 /\ v[n + 1][n + 1] # 1 }
